@@ -143,9 +143,11 @@ def run(case):
         from werkzeug.urls import url_parse, url_unquote
         loc = dict(got['headers']).get('Location', '')
         u = url_parse(loc)
-        from clastic.route import normalize_path
+        # the canonical path per the statement (computed here, not with the code under test): empty segments
+        # dropped, nothing else touched, one trailing slash
         path = '/' + case['request']['path'].lstrip('/')
-        want = normalize_path(path, True)
+        segs = [s_ for s_ in path.split('/') if s_ != '']
+        want = '/' + '/'.join(segs) + ('/' if segs else '')
         if url_unquote(u.path) != want:
             problems.append('Location path %r does not decode to the canonical path %r' % (u.path, want))
         q = case['request'].get('query_latin1', '')
